@@ -30,7 +30,7 @@ PROPS = {
                        'indexing, the positive-semidefinite repair and the scale conversions are bounded checks',
     },
     'C17': {
-        'level': 'proof',
+        'level': 'other',
         'proof': [('contracts.workflow', None)],
         'bounded': [],
         'assumptions': [PY_SUBSET],
@@ -57,7 +57,7 @@ PROPS = {
                        'interpreters and build orders are bounded checks',
     },
     'C16': {
-        'level': 'proof',
+        'level': 'other',
         'proof': [('contracts.modeldb', None)],
         'bounded': [],
         'assumptions': [PY_SUBSET],
@@ -65,7 +65,7 @@ PROPS = {
                        'crash points of the store operations enumerated natively (bounded)',
     },
     'C01': {
-        'level': 'proof',
+        'level': 'other',
         'proof': [('contracts.advan', None)],
         'bounded': [],
         'assumptions': [PY_SUBSET, FLOAT_AS_REAL],
@@ -73,14 +73,14 @@ PROPS = {
                        'values; abbreviated-code semantics, record parsing and the compartment wiring bounded',
     },
     'C10': {
-        'level': 'proof',
+        'level': 'other',
         'proof': [('contracts.statements_df', None)],
         'bounded': [],
         'assumptions': [PY_SUBSET],
         'explanation': 'last-assignment lookup proved for all statement lists; dependency analyses bounded',
     },
     'C19': {
-        'level': 'proof',
+        'level': 'other',
         'proof': [('contracts.criteria', None)],
         'bounded': [],
         'assumptions': [PY_SUBSET, FLOAT_AS_REAL],
@@ -88,7 +88,7 @@ PROPS = {
                        'definitions over abstract counts; ranking and tool statistics bounded',
     },
     'C05': {
-        'level': 'proof',
+        'level': 'other',
         'proof': [('contracts.statements_cs', None)],
         'bounded': [],
         'assumptions': [PY_SUBSET],
@@ -105,14 +105,14 @@ PROPS = {
         'explanation': 'monitor invariants of lock.py for any number of threads (per process)',
     },
     'C18': {
-        'level': 'proof',
+        'level': 'other',
         'proof': [('contracts.modelsearch', None)],
         'bounded': [],
         'assumptions': [PY_SUBSET],
         'explanation': 'peripheral step rule of the stepwise search proved against docs/modelsearch.rst',
     },
     'C04': {
-        'level': 'proof',
+        'level': 'other',
         'proof': [('contracts.lcs', None), ('contracts.nm_update', None)],
         'bounded': [('contracts.lcs', 'src/pharmpy/internals/sequence/lcs.py:diff',
                      'all pairs of sequences over {a,b,c} up to length 4 (quick) / 5 (thorough)')],
